@@ -852,7 +852,7 @@ func (vn *vnNet) quiesce(label string) {
 	vn.mu.Lock()
 	inflight := len(vn.inflight)
 	vn.mu.Unlock()
-	vn.tr.Emit("Quiesce", vlib.E{"label": label, "live": len(label) >= 4 && label[:4] == "live", "heads": heads, "clocks": clocks, "up": ups, "inflight": inflight, "epochs": liveEp})
+	vn.tr.Emit("Quiesce", vlib.E{"label": label, "live": len(label) >= 4 && label[:4] == "live", "catchup": len(label) >= 12 && label[:12] == "live-catchup", "heads": heads, "clocks": clocks, "up": ups, "inflight": inflight, "epochs": liveEp})
 }
 
 func (vn *vnNet) shutdown() {
